@@ -98,23 +98,23 @@ async def _run_once(sim: Sim, spec: dict[str, Any], lockstep: bool) -> list[tupl
         attach_at = 0 if attach_at == 0 else ch.draw("attach_at", total + 1)
         if attach_at:
             sim.probe("late_attach")
-        state = {"settled_lo": None}
         capeff = min(cap, 50) if kind != "flat" else cap
-        bound = capeff - 3
+        bound = capeff - 2
 
-        def on_idle() -> None:
-            if reader is not None and all(nxt[i] > starts[i] for i in range(n)):
-                state["settled_lo"] = min(nxt)
+        def backlog(i: int) -> int:
+            """Upper bound of the unconsumed samples of stream i (in its leaf receiver or in any
+            internal receiver downstream): before the first output nothing is assumed consumed
+            (the initial synchronisation drains the lagging streams one group at a time); once an
+            output stamped T was observed every stream has been consumed up to T."""
+            t_out = out[-1][0] if out else -1
+            return nxt[i] - max(starts[i], t_out + 1)
 
-        sim.loop.idle_hooks.append(on_idle)
         sent = 0
         maxlag = 0
         while any(nxt[i] < end for i in range(n)):
             if reader is None and sent >= attach_at:
                 attach()
-            lo = state["settled_lo"]
-            cand = [i for i in range(n) if nxt[i] < end
-                    and nxt[i] - max(starts[i], lo if lo is not None else starts[i]) < bound]
+            cand = [i for i in range(n) if nxt[i] < end and backlog(i) < bound]
             if not cand:
                 sim.probe("forced_settle")
                 if reader is None:
@@ -144,7 +144,6 @@ async def _run_once(sim: Sim, spec: dict[str, Any], lockstep: bool) -> list[tupl
             sim.probe("lag_ge_3")
         if maxlag > 0 or len(set(starts)) > 1:
             sim.nontrivial = True
-        sim.loop.idle_hooks.remove(on_idle)
     await asyncio.sleep(3.0)
     assert reader is not None
     reader.cancel()
@@ -172,10 +171,15 @@ def scenario(sim: Sim) -> None:
         tree = _remap(tree, remap)
         n = len(remap)
     stag = ch.weighted("stagger", [2, 3])
-    starts = [0] * n if stag == 0 else [ch.choice("start", [0, 0, 1, 2, 3, 5, 9, 20]) for _ in range(n)]
+    cap = ch.choice("cap", [50, 8, 16])
+    # a stream may have to deliver (T* - start) samples before anything can be consumed, so the
+    # spread of the first timestamps must fit the receiver capacity (else the backlog bound of the
+    # property's quantifier cannot be kept at all)
+    spread = {50: [0, 0, 1, 2, 3, 5, 9, 20], 16: [0, 0, 1, 2, 3, 5, 8], 8: [0, 0, 1, 2]}[cap]
+    starts = [0] * n if stag == 0 else [ch.choice("start", spread) for _ in range(n)]
     if len(set(starts)) > 1:
         sim.probe("staggered_start")
-    spec = dict(n=n, starts=starts, rounds=ch.int_between("rounds", 3, 30), cap=ch.choice("cap", [50, 8, 16]),
+    spec = dict(n=n, starts=starts, rounds=ch.int_between("rounds", 3, 30), cap=cap,
                 kind=kind, tree=tree, op3=ch.draw("op3", 2) if kind == "3phase" else 0)
     cost = ch.weighted("cost_mode", [2, 1, 2])
     cost_seed = ch.draw("cost_seed", 1 << 16) if cost == 2 else 0
